@@ -1,4 +1,4 @@
-CONSTANTS MaxLen = 7  MaxByte = 3  MaxPasses = 2  Bug = "AppendBeforeDetach"
+CONSTANTS MaxLen = 7  MaxByte = 3  MaxPasses = 2  MaxDepth = 1  Bug = "AppendBeforeDetach"
 INIT Init
 NEXT Next
 INVARIANT Robust
